@@ -395,6 +395,15 @@ impl VGen {
                 }
                 m(a)
             }
+            10 => {
+                // a basic rotation with ONE of its zero entries replaced by a value that is not a number, a negative zero
+                // or a denormal: "approximately zero" tests must not wave a NaN through
+                let mut a = basis;
+                let zeros: Vec<(usize, usize)> = (0..3).flat_map(|i| (0..3).map(move |j| (i, j))).filter(|(i, j)| a[*i][*j] == 0.0).collect();
+                let (i, j) = *r.pick(&zeros);
+                a[i][j] = *r.pick(&[f32::NAN, f32::from_bits(0x7fc0_1234), f32::from_bits(0xffc0_0000), -0.0, f32::from_bits(1), f32::INFINITY]);
+                m(a)
+            }
             5 => {
                 // just outside epsilon (must NOT snap)
                 let mut a = basis;
